@@ -352,10 +352,12 @@ class StubInstaller:
 # verifying one configuration
 # ----------------------------------------------------------------------------------------
 def _next_prefix(trace):
+    """depth-first search over decisions: flip the deepest fork whose other side is still unexplored; forks
+    above it keep their pending alternatives"""
     for i in range(len(trace) - 1, -1, -1):
         d, alt = trace[i]
         if alt and d:
-            return [t[0] for t in trace[:i]] + [False]
+            return [(t[0], t[1]) for t in trace[:i]] + [(False, False)]
     return None
 
 
